@@ -207,7 +207,7 @@ def h_cli_json(ki: int, v: int):
 
 
 # ------------------------------------------------------------------------------------------------ E2: cursor and groupby
-U = [{"a": 0, "n": {"c": 0}}, {"a": 1, "n": {"c": 0}}, {"a": 1, "n": {"c": 1}, "x": 5}, {"a": 2}]
+U = [{"a": 0, "n": {"c": 0}}, {"a": 1, "n": {"c": 0}}, {"a": 1, "n": {"c": 1}, "x": 5}, {"a": 2, "n": 7}]   # the last job stores a scalar where the others store a mapping
 FILTERS = [None, {}, {"a": 1}, {"a": {"$lt": 2}}, {"n.c": 0}, {"doc.k": 1}, {"x": {"$exists": False}}, {"a": 7}]
 
 
